@@ -102,4 +102,5 @@ def replay(repo, rp):
 
 MODES = ['best', 'separate', 'all']
 MODESQ = ['best', 'separate', 'all']
-PARAMS = [{}, {'dp': 2.0}, {'sp': 800, 'dp': 1.5, 'd': 1200}, {'dp': 0.5, 'su': -100}, {'su': -400, 'ms': 1500, 'bs': 600}, {'d': 2500, 'dp': 0.3}]
+PARAMS = [{}, {'dp': 2.0}, {'sp': 800, 'dp': 1.5, 'd': 1200}, {'dp': 0.5, 'su': -100}, {'su': -400, 'ms': 1500, 'bs': 600}, {'d': 2500, 'dp': 0.3},
+          {'dp': 0.004}, {'dp': 0.125, 'su': -75}]          # (penalties with more decimals than the Confidence column shows)
